@@ -1423,7 +1423,11 @@ class H2Connection:
         # RFC 7540 Section 6.5.2.
         if SettingCodes.HEADER_TABLE_SIZE in changes:
             setting = changes[SettingCodes.HEADER_TABLE_SIZE]
-            self.encoder.header_table_size = setting.new_value
+            # A peer may re-announce the size it already uses. Handing an
+            # unchanged size to the encoder makes it forget a size change it
+            # has not signalled yet, so only real changes are passed on.
+            if setting.new_value != self.encoder.header_table_size:
+                self.encoder.header_table_size = setting.new_value
 
         if SettingCodes.MAX_FRAME_SIZE in changes:
             setting = changes[SettingCodes.MAX_FRAME_SIZE]
